@@ -394,7 +394,11 @@ func (g *Gen) scenario(p *Profile) {
 				if g.r.Chance(1, 2) && len(t.Outs) > 0 && t.Outs[0].Addr != "$" {
 					addr = t.Outs[0].Addr
 				}
-				g.emit(fmt.Sprintf("balrace %s %d", addr, t.Idx))
+				if g.r.Chance(1, 2) {
+					g.emit(fmt.Sprintf("balrace %s %d g2=1", addr, t.Idx))
+				} else {
+					g.emit(fmt.Sprintf("balrace %s %d", addr, t.Idx))
+				}
 			}
 		case "xfer-hold":
 			// build a valid transaction now, submit it later (it may be stale by then)
